@@ -567,14 +567,16 @@ func StandardSpace(thorough bool) *Space {
 	add(&SeqBlock{Name: "three-sends", Alphabet: simpleSends(), Len: 3})
 	if thorough {
 		wide := Bounds{SrcDepth: 1, DstDepth: 1, Wide: true, ThreeWay: true, SecondAsset: true, Vars: true}
-		add(&Block{Name: "wide", Amounts: wide.Amounts(), Sources: wide.Sources(), Dests: wide.Dests()})
+		add(&Block{Name: "wide-src", Amounts: wide.Amounts(), Sources: wide.Sources(), Dests: wide.dstLeaves()})
+		add(&Block{Name: "wide-dst", Amounts: wide.Amounts(), Sources: vs(wide.srcLeaves()), Dests: wide.Dests()})
+		add(&Block{Name: "wide-mid", Amounts: wide.Amounts()[:6], Sources: base.Sources(), Dests: wide.Dests()})
 		wide2 := Bounds{SrcDepth: 1, DstDepth: 1, Wide: true}
 		add(&Block{Name: "wide-two-stmt", Amounts: wide2.Amounts()[:4], Sources: base.Sources(), Dests: base.dstLeaves()[:2], Extras: wide2.Extras()})
 		deepv := Bounds{SrcDepth: 2, DstDepth: 2, Vars: true}
 		add(&Block{Name: "deep-src-vars", Amounts: vars.Amounts(), Sources: vs(deepv.sourcesAt(2)), Dests: base.dstLeaves()[:1]})
 		add(&Block{Name: "deep-dst-vars", Amounts: vars.Amounts()[:6], Sources: vs(base.srcLeaves()[:3]), Dests: deepv.Dests()})
-		d3 := Bounds{SrcDepth: 3}
-		add(&Block{Name: "depth3-src", Amounts: base.Amounts()[:1], Sources: vs(d3.sourcesAt(3)), Dests: base.dstLeaves()[:1]})
+		add(&SeqBlock{Name: "four-sends", Alphabet: simpleSends()[:9], Len: 4})
+		add(&SeqBlock{Name: "three-statements-mixed", Alphabet: append(simpleSends()[:12], wide2.Extras()...), Len: 3})
 	}
 	return sp
 }
